@@ -832,6 +832,48 @@ def run_history(config, ops, use_frac, use_seed, stats=None, record=None, net_cl
     return outcomes, text, ports
 
 
+def shared_dict_requests(config, stats):
+    """Metamorphic: every resource with subsignals requested with dir={"s0": "-"} - once with one dictionary object shared by all
+    requests, once with a fresh equal dictionary each time. What is granted, refused and returned (kind and direction of every
+    member) must be the same: a request does not depend on what earlier requests did to the caller's arguments."""
+    import warnings
+
+    def describe(obj):
+        if hasattr(obj, "direction"):
+            return ["port", obj.direction.value, len(obj)]
+        if hasattr(obj, "dir"):
+            return ["pin", obj.dir, getattr(obj, "width", None)]
+        fields = getattr(obj, "signature", None)
+        if fields is not None and hasattr(fields, "members"):
+            return {k: describe(getattr(obj, k)) for k in fields.members}
+        return {k: describe(v) for k, v in vars(obj).items() if not k.startswith("_")} if hasattr(obj, "__dict__") else str(type(obj))
+
+    def history(shared):
+        plat, _ = make_platform(dict(config, default_clk=None, osc_clk=None))
+        d_shared = {"s0": "-"}
+        out = []
+        for r in config["resources"]:
+            if "subs" not in r:
+                continue
+            d = d_shared if shared else {"s0": "-"}
+            try:
+                with warnings.catch_warnings():
+                    warnings.simplefilter("ignore")
+                    obj = plat.request(r["name"], r["number"], dir=d)
+                out.append(describe(obj))
+            except Exception as e:
+                out.append("refused:" + type(e).__name__)
+        return out, d_shared
+    a, d_after = history(True)
+    b, _ = history(False)
+    if len(a) >= 2:
+        stats["probes"]["shared_dir_dict_histories"] = stats["probes"].get("shared_dir_dict_histories", 0) + 1
+    if a != b:
+        k = next(i for i, (x, y) in enumerate(zip(a, b)) if x != y)
+        raise Violation("request_depends_on_earlier_requests_arguments", k, {"with_shared_dict": a[k], "with_fresh_dict": b[k],
+                                                                            "shared_dict_after": {str(k_): str(v_) for k_, v_ in d_after.items()}})
+
+
 def run_case(case):
     config = case["config"]
     res = Result()
@@ -841,6 +883,8 @@ def run_case(case):
                         "legal_after_refusal": 0, "metamorphic_compared": 0}}
 
     def go():
+        if sum(1 for r in config["resources"] if "subs" in r) >= 2:
+            shared_dict_requests(config, stats)
         outcomes, text, ports = run_history(config, case["steps"], case["use_frac"], case["use_seed"], stats, net_clocks=case.get("net_clocks", ()))
         dig.add((outcomes, text))
         build1 = outcomes[len(case["steps"]):]
